@@ -444,6 +444,31 @@ fn exec_inner(line: &str) -> String {
             let a = h!(a);
             by_enc!(*e, hash, &a)
         }
+        ["lossy", s] => {
+            // `to_str` / `to_string_lossy` / `display()` / `Display` of every family that offers them, on the
+            // same bytes; all must say the same, and that is what the model (Spec/Lossy.lean) is compared with
+            let b = h!(s);
+            let up = UnixPath::new(&b);
+            let wp = WindowsPath::new(&b);
+            let st = up.to_str().map(|x| x.as_bytes().to_vec());
+            let lo = up.to_string_lossy().into_owned().into_bytes();
+            let mut all_str = vec![wp.to_str().map(|x| x.as_bytes().to_vec()), up.to_path_buf().to_str().map(|x| x.as_bytes().to_vec()), TypedPath::unix(&b).to_str().map(|x| x.as_bytes().to_vec()), TypedPath::windows(&b).to_str().map(|x| x.as_bytes().to_vec())];
+            all_str.push(TypedPathBuf::from_unix(&b).to_path().to_str().map(|x| x.as_bytes().to_vec()));
+            let all_lossy: Vec<Vec<u8>> = vec![
+                wp.to_string_lossy().into_owned().into_bytes(),
+                up.display().to_string().into_bytes(),
+                wp.display().to_string().into_bytes(),
+                format!("{}", up.to_path_buf().display()).into_bytes(),
+                format!("{}", wp.to_path_buf().display()).into_bytes(),
+                TypedPath::unix(&b).to_string_lossy().into_owned().into_bytes(),
+                TypedPath::windows(&b).to_string_lossy().into_owned().into_bytes(),
+                TypedPath::unix(&b).display().to_string().into_bytes(),
+                TypedPath::windows(&b).display().to_string().into_bytes(),
+                TypedPathBuf::from_unix(&b).to_path().display().to_string().into_bytes(),
+            ];
+            let same = all_str.iter().all(|x| *x == st) && all_lossy.iter().all(|x| *x == lo);
+            format!("str={} lossy={}{}", st.map(|x| hex(&x)).unwrap_or("none".into()), hex(&lo), if same { "" } else { " FAMILIES-DISAGREE" })
+        }
         ["stdutf8", s] => {
             let b = h!(s);
             b01(std::str::from_utf8(&b).is_ok()).into()
